@@ -265,9 +265,9 @@ def obligations(tier, seed):
     obs.append(Ob(id="C15.3b-sidecars-in-archive", body="harness.C15:body_sidecars_nonreal_fallback", sig="mask: int, umn: bool", pre=["0 <= mask <= 15"], timeout=300,
                   desc="file inside a non-real VFS (ZIP-like) while the process-wide file system is a different tree: the entry's attribute blocks come from the sidecars inside that VFS",
                   bounds="16 sidecar subsets x item / directory listing (symbolic)", functions=["handlers.file.FileHandler.getentry", "GopherEntry.populatefromfs/handleeaext"]))
-    obs.append(Ob(id="C15.4b-size-truth", body="harness.C04:body_size", sig="i: int", pre=["0 <= i < 15"], timeout=120,
+    obs.append(Ob(id="C15.4b-size-truth", body="harness.C04:body_size", sig="i: int", pre=["0 <= i < 17"], timeout=120,
                   desc="the size the + header shows is, for every document handler, unknown or the number of bytes written (shared with C04.3)",
-                  bounds="15 (handler, fixture) pairs on the real testdata", functions=["handlers.*.getentry/write"]))
+                  bounds="17 (handler, fixture) pairs on the real testdata", functions=["handlers.*.getentry/write"]))
     for form in (0, 1):
         for real in (True, False):
             for mask in ((1, 15) if tier == "quick" else range(16)):
